@@ -490,6 +490,18 @@ def call_builtin(I, name, args, kwargs):
             t = _dt.datetime(*[v.as_long() for v in vals])
             return Tm((t - _dt.datetime(2000, 1, 1)).total_seconds())
         raise Unsupported("datetime(...) with symbolic fields")
+    if name in ("timedelta", "datetime.timedelta"):
+        # a duration is its number of seconds on the same real line as datetimes (A: microsecond resolution is not modelled)
+        units = {"days": 86400, "seconds": 1, "microseconds": z3.RealVal("1/1000000"), "milliseconds": z3.RealVal("1/1000"), "minutes": 60,
+                 "hours": 3600, "weeks": 604800}
+        order = ["days", "seconds", "microseconds", "milliseconds", "minutes", "hours", "weeks"]
+        tot, nan = z3.RealVal(0), FALSE
+        for nm, a in list(zip(order, args)) + list(kwargs.items()):
+            if nm not in units:
+                raise Unsupported("timedelta(%s=...)" % nm)
+            f = lift_fl(a)
+            tot, nan = tot + f.v * units[nm], z3.Or(nan, f.nan)
+        return Fl(z3.simplify(tot), z3.simplify(nan))
     if name in ("bisect_left", "bisect_right"):
         name = "bisect." + name
     if name in ("bisect.bisect_left", "bisect.bisect_right"):
@@ -687,6 +699,9 @@ def seq_method(I, o, name, args, kwargs):
             p["len"] = z3.IntVal(0)                   # in place: every alias of the list sees it emptied
             I.wrote(o.oid, "items")
             return None
+        ext = I.registry.get("seqmethod:" + name)
+        if ext is not None:
+            return ext(I, o, args, kwargs)
         raise Unsupported("sequence method %s on a symbolic sequence" % name)
     if "items" in p:
         if name == "append":
